@@ -51,6 +51,18 @@ func Hex(b []byte) string {
 	return hex.EncodeToString(b)
 }
 
+// Unhex is the inverse of Hex (nil for "-" or malformed input).
+func Unhex(s string) []byte {
+	if s == "-" {
+		return nil
+	}
+	b, err := hex.DecodeString(s)
+	if err != nil {
+		return nil
+	}
+	return b
+}
+
 // Text is the line-protocol token form (same as Lean `Item.text`).
 func (it Item) Text() string {
 	var sb strings.Builder
